@@ -120,6 +120,8 @@ pub const SF_PREFIX: &str = "# {\"id\":\"sourceFile\",\"fileName\":\"";
 pub const SOUP: &[&[u8]] = &[
     b"    ", b" ", b":", b" -> ", b"(", b")", b"#", b"\n", b"\r", b"\r\n", b".", b"# {\"id\":\"sourceFile\",\"fileName\":\"", b"\"}", b"\"", b"\xff", b"\xb2", b"\xc3", b"a", b"b", b"void", b"1", b"0",
     b"99999999999999999999999", b"18446744073709551615", b"a.b.C -> x:", b"    1:2:void m():3:4 -> y", b"    int f -> z", b"# compiler: R8", b"Foo.kt", b"\t", b"\0", b"\xe6\xbc\xa2", b"1:2:", b":3", b"()", b",",
+    // control bytes and Unicode line separators next to real terminators, backslashes, byte order mark
+    b"\x0b", b"\x0c", b"\x0b\n", b"\x0c\r", b"\x1f", b"\x1c", b"\\", b"\\\n", b"\\\\", b"\xc2\x85", b"\xe2\x80\xa8", b"\xe2\x80\xa9", b"\xef\xbb\xbf", b"abcdefg", b"# k: vvvvvv", b"    int f -> zzzzzz",
 ];
 
 #[derive(Clone, Debug, Serialize, Deserialize)]
@@ -169,7 +171,7 @@ pub struct BytesCase {
 pub fn bytes_case() -> BoxedStrategy<BytesCase> {
     prop_oneof![
         vec(any::<u8>(), 0..200).prop_map(|v| BytesCase { hex: hex(&v) }),
-        vec(select(&[b' ', b':', b'-', b'>', b'(', b')', b'#', b'\n', b'\r', b'a', b'1', b'.', b'"', b'}', 0xffu8, 0xb2][..]), 0..120).prop_map(|v| BytesCase { hex: hex(&v) }),
+        vec(select(&[b' ', b':', b'-', b'>', b'(', b')', b'#', b'\n', b'\r', b'a', b'1', b'.', b'"', b'}', 0xffu8, 0xb2, 0x0b, 0x0c, b'\\', b'a', b'a', b'\n'][..]), 0..120).prop_map(|v| BytesCase { hex: hex(&v) }),
     ]
     .boxed()
 }
@@ -198,7 +200,7 @@ pub fn check_mutant(c: &mutate::MutCase, st: &mut Stats) -> Check {
 }
 
 // ---- bounded-exhaustive short strings
-pub const ALPHA: &[&[u8]] = &[b"a", b" ", b" -> ", b":", b"#", b"\n", b"\r", b"# {\"id\":\"sourceFile\",\"fileName\":\"", b"\"}"];
+pub const ALPHA: &[&[u8]] = &[b"a", b" ", b" -> ", b":", b"#", b"\n", b"\r", b"# {\"id\":\"sourceFile\",\"fileName\":\"", b"\"}", b"\\", b"\x0b"];
 
 #[derive(Clone, Debug, Serialize)]
 pub struct Chunk {
@@ -257,7 +259,7 @@ pub fn check_corpus(c: &CorpusSplit, st: &mut Stats) -> Check {
 
 pub fn run(ctx: &Ctx) -> Report {
     let mut rep = Report::new(ID, "exploration", ctx);
-    rep.rule = "Generated: pairs (A,B) of token soups over the grammar's delimiters (4 spaces, ':', ' -> ', parentheses, '#', LF, CR, CRLF, the sourceFile JSON prefix/suffix, quotes, 0xff, 0xb2, huge digit runs, whole valid lines) joined by LF, CR and CRLF; random byte strings and delimiter-byte strings split at every line break; hostile token mutants of generated mappings (numbers around 2^32/2^64, invalid UTF-8, unterminated sourceFile headers); corpus files cut at sampled line boundaries; bounded-exhaustive: all strings of <=6 (quick) / <=7 (thorough) symbols over a 9-symbol alphabet, split at every LF/CR symbol. Oracle: iteration terminates with items <= input bytes, no yielded component contains CR/LF, and records(A ++ t ++ B) == records(A) ++ records(B) after norm (error items compared by their line without terminators; error items with an empty line dropped). evaluations = inputs iterated + split relations checked. Non-trivial = distinct (input, split) whose records contain both an Ok and an Err item, or whose A ends in an error line.".into();
+    rep.rule = "Generated: pairs (A,B) of token soups over the grammar's delimiters (4 spaces, ':', ' -> ', parentheses, '#', LF, CR, CRLF, the sourceFile JSON prefix/suffix, quotes, 0xff, 0xb2, huge digit runs, whole valid lines) joined by LF, CR and CRLF; random byte strings and delimiter-byte strings split at every line break; hostile token mutants of generated mappings (numbers around 2^32/2^64, invalid UTF-8, unterminated sourceFile headers); corpus files cut at sampled line boundaries; bounded-exhaustive: all strings of <=6 (quick) / <=7 (thorough) symbols over an 11-symbol alphabet (a, space, arrow, colon, #, LF, CR, sourceFile prefix, quote-brace, backslash, VT), split at every LF/CR symbol. Oracle: iteration terminates with items <= input bytes, no yielded component contains CR/LF, and records(A ++ t ++ B) == records(A) ++ records(B) after norm (error items compared by their line without terminators; error items with an empty line dropped). evaluations = inputs iterated + split relations checked. Non-trivial = distinct (input, split) whose records contain both an Ok and an Err item, or whose A ends in an error line.".into();
     rep.assumptions = vec!["phantom error items for blank trailing input are ignored (norm)".into()];
     rep.run_stage("pairs", pair_case, ctx.cases(150_000, 12_000_000), check_pair);
     rep.run_stage("bytes", bytes_case, ctx.cases(20_000, 1_500_000), |c: &BytesCase, st: &mut Stats| check_bytes(&unhex(&c.hex), 32, st));
@@ -272,7 +274,7 @@ pub fn run(ctx: &Ctx) -> Report {
     }
     chunks.reverse();
     rep.run_enum("exhaustive", &chunks, check_chunk);
-    rep.stats.exhaustive.push(format!("all strings of length <= {max_len} over the 9-symbol alphabet, every LF/CR split"));
+    rep.stats.exhaustive.push(format!("all strings of length <= {max_len} over the 11-symbol alphabet, every LF/CR split"));
     let splits = ctx.tier.pick(24, 400);
     let corpus: Vec<CorpusSplit> = super::c02::corpus_files().into_iter().map(|p| CorpusSplit { path: p, splits }).collect();
     rep.run_enum("corpus", &corpus, check_corpus);
